@@ -103,6 +103,13 @@ main (void)
 #if IS_FLOAT_T
 		for (k = 0 ; k < LMAX + GUARD ; k++)
 			VASSUME (nd_in [k] == nd_in [k] && nd_in [k] > (T) -1e9 && nd_in [k] < (T) 1e9) ;
+#if defined (IS_G711) && defined (KF_g711range)
+		for (k = 0 ; k < LMAX + GUARD ; k++)
+			VASSUME (nd_in [k] >= (T) -1.0 && nd_in [k] <= (T) 1.0) ;	/* known finding excluded (known_findings.txt) */
+#endif
+#if defined (PROBE_g711range)
+		VASSUME (nd_in [0] > (T) 1.5 || nd_in [0] < (T) -1.5) ;
+#endif
 #endif
 		mf [0].len = mf [1].len = 0 ;
 		setup (a, 0) ;
@@ -147,6 +154,13 @@ main (void)
 #if IS_FLOAT_T
 		for (k = 0 ; k < LMAX + GUARD ; k++)
 			VASSUME (nd_in [k] == nd_in [k] && nd_in [k] > (T) -1e9 && nd_in [k] < (T) 1e9) ;
+#if defined (IS_G711) && defined (KF_g711range)
+		for (k = 0 ; k < LMAX + GUARD ; k++)
+			VASSUME (nd_in [k] >= (T) -1.0 && nd_in [k] <= (T) 1.0) ;	/* known finding excluded (known_findings.txt) */
+#endif
+#if defined (PROBE_g711range)
+		VASSUME (nd_in [0] > (T) 1.5 || nd_in [0] < (T) -1.5) ;
+#endif
 #endif
 		for (k = 0 ; k < MF_CAP ; k++) mf [0].data [k] = nd_file [k] ;
 		mf [0].len = MF_CAP ;
